@@ -60,6 +60,7 @@ def tower_op(prog, level, mname, al, intercepts, in_levels, spec, alias=None, ou
             raise v
     if not I.intercept_hits:
         raise Inconclusive("no intercept was hit while running " + fname)
+    H.require_justified()
     return dict(H.stats(), paths=len(res), sample="%s::%s over %s atoms" % (CLASS[level], mname, CLASS[al]))
 
 
@@ -104,6 +105,7 @@ def inverse_op(prog, level, alias=False, timeout_ms=120000):
                                                      "atom_level": al, "alias": [0] if alias else None}))
                 v.info = H.stats()
                 raise v
+        H.require_justified()
         st = H.stats()
         for k, v in st.items():
             info[k] = info.get(k, 0) + v if not isinstance(v, list) else v
@@ -259,8 +261,91 @@ def register(chk, prog, thorough):
     chk.add("Fq12::conjugate", tower_op, prog, 3, "conjugate", 0, (0, 1, 2), (3,), lambda T, a: T.conj(3, a))
 
 
+def _names(level, name):
+    if level == 0:
+        return [name]
+    out = []
+    for i in range(tower.ARITY[level]):
+        out += _names(level - 1, "%s_%d" % (name, i))
+    return out
+
+
+def _nest(level, flat):
+    if level == 0:
+        return flat.pop(0)
+    return tuple(_nest(level - 1, flat) for _ in range(tower.ARITY[level]))
+
+
+REPLAY_SPECS = {
+    "add": lambda T, k, v, pw: T.add(k, v[0], v[1]), "subtract": lambda T, k, v, pw: T.sub(k, v[0], v[1]),
+    "multiply": lambda T, k, v, pw: T.mul(k, v[0], v[1]), "square": lambda T, k, v, pw: T.sqr(k, v[0]),
+    "multiply2": lambda T, k, v, pw: T.dbl(k, v[0]), "negate": lambda T, k, v, pw: T.neg(k, v[0]),
+    "copy": lambda T, k, v, pw: v[0], "frobenius_map": lambda T, k, v, pw: T.frobenius(k, v[0], pw),
+    "multiply_by_nonresidue": lambda T, k, v, pw: T.mul_nr(k, v[0]), "conjugate": lambda T, k, v, pw: T.conj(3, v[0]),
+    "multiply_by_c1": lambda T, k, v, pw: T.mul(2, v[0], (T.zero(1), v[1], T.zero(1))),
+    "multiply_by_c01": lambda T, k, v, pw: T.mul(2, v[0], (v[1], v[2], T.zero(1))),
+    "multiply_by_c014": lambda T, k, v, pw: T.mul(3, v[0], ((v[1], v[2], T.zero(1)), (T.zero(1), v[3], T.zero(1)))),
+}
+
+
+def replay_tower(res, config="A"):
+    """replay a counterexample natively: model point first (if it is over Fq atoms), then seeded random points;
+    reproduced iff the real library's output differs from the concrete evaluation of the specification"""
+    import random
+    from engine import replay
+    ce = res.counterexample or {}
+    if "method" not in ce or "level" not in ce:
+        return None
+    level, mname = ce["level"], ce["method"]
+    in_levels = ce.get("in_levels") or [level]
+    alias = ce.get("alias") or []
+    power = ce.get("power", 0) or 0
+    rng = random.Random(int(os.environ.get("VERIF_SEED", "0")) + 1)
+    ring = dom_ring.Ring(Q)
+    T = tower.Tower(ring, 0)
+    names = ["a", "b", "c", "d"]
+    points = []
+    asg = {k: int(v, 16) for k, v in ce.get("assignment", {}).items()}
+    if ce.get("atom_level", 0) == 0 and asg:
+        points.append([[asg.get(n, 0) for n in _names(l, names[i])] for i, l in enumerate(in_levels)])
+    if ce.get("case") == "zero":
+        points = [[[0] * len(_names(l, "a")) for l in in_levels]]
+    else:
+        for _ in range(6):
+            points.append([[rng.randrange(Q) for _ in _names(l, names[i])] for i, l in enumerate(in_levels)])
+    mask = 0
+    for j in alias:
+        mask |= 1 << j
+    tried = []
+    for pt in points:
+        if len(alias) > 1:
+            for j in alias[1:]:
+                pt[j] = pt[alias[0]]
+        hexes = ["".join(replay.hex_fq(x) for x in comp) for comp in pt]
+        out = replay.run(["tower %d %s %d %d %s" % (level, mname, mask, power, " ".join(hexes))], config)[0]
+        if out.startswith("ERR"):
+            return None
+        got = [int(out[96 * i:96 * i + 96], 16) for i in range(len(out) // 96)]
+        vals = [T.from_ints(l, _nest(l, list(comp))) for l, comp in zip(in_levels, pt)]
+        if mname == "inverse":
+            o = T.from_ints(level, _nest(level, list(got)))
+            prod = T.flatten(level, T.mul(level, o, vals[0]))
+            want = [1] + [0] * (len(prod) - 1) if any(pt[0]) else None
+            bad = ([x.n for x in prod] != want) if want else any(got)
+        else:
+            exp = [x.n for x in T.flatten(level, REPLAY_SPECS[mname](T, level, vals, power))]
+            bad = exp != got
+        tried.append({"inputs": hexes, "native_output": out, "mismatch": bad})
+        if bad:
+            ce["native_replay"] = tried[-1]
+            return True
+    ce["native_replay_tried"] = len(tried)
+    return False
+
+
 def main(argv=None):
     chk = Check("C04", "proof", argv)
+    chk.replayer = replay_tower
     prog = build.load_program("A", files=["src/bls12_381/fq2.cpp", "src/bls12_381/fq6.cpp", "src/bls12_381/fq12.cpp",
                                            "src/bls12_381/fq12_cyclotomic.cpp", "src/bls12_381/fq.cpp"], tag="c04")
     prog.demangle_all()
